@@ -128,6 +128,9 @@ def run(chk):
     from . import shared
     shared.store_exact(chk, "R11")
     shared.server_reset(chk, "R12")
+    # R13: every response echoes the addressed multiplexer -- including the abort responses (clause shared with C06.R3)
+    from . import c06
+    c06.abort_frame_and_multiplexer(chk, "R13")
 
 
 # ---------------------------------------------------------------------------------------------------- R4
@@ -520,9 +523,9 @@ def _totality(chk, repo, folder):
 
 
 # ---------------------------------------------------------------------------------------------------- R10
-def _precedence(chk, repo, folder):
-    f = repo.func(LN, "LocalNode.get_data", "C02.R10")
-    ff = ff_for(chk, f, "C02.R10")
+def _precedence(chk, repo, folder, rule="R10"):
+    f = repo.func(LN, "LocalNode.get_data", f"{chk.prop}.{rule}")
+    ff = ff_for(chk, f, f"{chk.prop}.{rule}")
     rets = [n for n in own_nodes(f.node) if isinstance(n, ast.Return) and n.value is not None]
     kinds = []
     for r in rets:
@@ -530,7 +533,7 @@ def _precedence(chk, repo, folder):
         facts = [(ff.norm(e, subst=False), p) for e, p in ff.facts_at(r)]
         if v == "obj.encode_raw(result)":
             kinds.append(("callback", r))
-            chk.check((ff.canon("result is not None"), True) in facts, "R10", f"{LN}:LocalNode.get_data | callback result by presence", f.loc(r),
+            chk.check((ff.canon("result is not None"), True) in facts, rule, f"{LN}:LocalNode.get_data | callback result by presence", f.loc(r),
                       f"callback result selected under {facts}; a falsy result (0, empty) must still be served")
         elif "data_store" in v or (isinstance(r.value, ast.Name) and ff.one_def(r.value.id) is not None and "data_store" in src(ff.one_def(r.value.id))):
             kinds.append(("store", r))
@@ -542,22 +545,22 @@ def _precedence(chk, repo, folder):
                 by_presence = nm is not None and (ff.canon(f"{nm} is not None"), True) in facts
                 truthy = nm is not None and (nm, True) in facts
                 if truthy and not by_presence:
-                    chk.bad("R10", f"{LN}:LocalNode.get_data | stored data by presence", f.loc(r),
+                    chk.bad(rule, f"{LN}:LocalNode.get_data | stored data by presence", f.loc(r),
                             f"stored data is served only when truthy (`if {nm}:`): a stored empty value falls through to ParameterValue/DefaultValue")
                     continue
-            chk.check(by_presence, "R10", f"{LN}:LocalNode.get_data | stored data by presence", f.loc(r), f"stored value returned under {facts}")
+            chk.check(by_presence, rule, f"{LN}:LocalNode.get_data | stored data by presence", f.loc(r), f"stored value returned under {facts}")
         elif v == "obj.encode_raw(obj.value)":
             kinds.append(("value", r))
-            chk.check((ff.canon("obj.value is not None"), True) in facts, "R10", f"{LN}:LocalNode.get_data | ParameterValue by presence", f.loc(r), f"under {facts}")
+            chk.check((ff.canon("obj.value is not None"), True) in facts, rule, f"{LN}:LocalNode.get_data | ParameterValue by presence", f.loc(r), f"under {facts}")
         elif v == "obj.encode_raw(obj.default)":
             kinds.append(("default", r))
-            chk.check((ff.canon("obj.default is not None"), True) in facts, "R10", f"{LN}:LocalNode.get_data | DefaultValue by presence", f.loc(r), f"under {facts}")
+            chk.check((ff.canon("obj.default is not None"), True) in facts, rule, f"{LN}:LocalNode.get_data | DefaultValue by presence", f.loc(r), f"under {facts}")
         else:
-            chk.unk("R10", f"{LN}:LocalNode.get_data | return {v}", f.loc(r), "value source not recognised")
+            chk.unk(rule, f"{LN}:LocalNode.get_data | return {v}", f.loc(r), "value source not recognised")
     order = [k for k, r in sorted(kinds, key=lambda kr: kr[1].lineno)]
-    chk.check(order == ["callback", "store", "value", "default"], "R10", f"{LN}:LocalNode.get_data | source precedence", f.loc(),
+    chk.check(order == ["callback", "store", "value", "default"], rule, f"{LN}:LocalNode.get_data | source precedence", f.loc(),
               f"value sources are consulted in the order {order}; expected callbacks, stored data, ParameterValue, DefaultValue")
     # each later source is reachable only when the earlier ones were absent: CFG order
     nodes = [ff.cfg.node_of(r) for k, r in sorted(kinds, key=lambda kr: kr[1].lineno)]
     for a, b in zip(nodes, nodes[1:]):
-        chk.check(a not in ff.cfg.reach_from(b), "R10", f"{LN}:LocalNode.get_data | order line {a.lineno} before {b.lineno}", f.loc(a.ast), "sources are not consulted in order")
+        chk.check(a not in ff.cfg.reach_from(b), rule, f"{LN}:LocalNode.get_data | order line {a.lineno} before {b.lineno}", f.loc(a.ast), "sources are not consulted in order")
